@@ -4,6 +4,7 @@ import (
 	"fmt"
 	"go/constant"
 	"go/token"
+	"go/types"
 	"sort"
 	"strings"
 
@@ -38,23 +39,79 @@ func (s PState) key() string {
 	return strings.Join(parts, ";")
 }
 
+// nonNil is the key under which a path records that an SSA value is known not to be nil (learnt from a
+// branch on `v != nil` / `v == nil`). It only serves as a map key of PState.
+type nonNil struct{ v ssa.Value }
+
+func (k nonNil) Name() string                  { return "nonnil:" + k.v.Name() }
+func (k nonNil) String() string                { return k.Name() }
+func (k nonNil) Type() types.Type              { return k.v.Type() }
+func (k nonNil) Parent() *ssa.Function         { return k.v.Parent() }
+func (k nonNil) Referrers() *[]ssa.Instruction { return nil }
+func (k nonNil) Pos() token.Pos                { return token.NoPos }
+
+// Base follows the φ-nodes (and tracked cells) bound on this path down to the value they stand for.
+func Base(v ssa.Value, st PState) ssa.Value {
+	for i := 0; i < 16; i++ {
+		switch x := v.(type) {
+		case *ssa.Phi:
+			if b, ok := st[x]; ok && b != ssa.Value(x) {
+				v = b
+				continue
+			}
+		case *ssa.ChangeType:
+			v = x.X
+			continue
+		case *ssa.UnOp:
+			if x.Op == token.MUL {
+				if al, ok := x.X.(*ssa.Alloc); ok {
+					if sv, ok := st[al]; ok {
+						v = sv
+						continue
+					}
+				}
+			}
+		}
+		break
+	}
+	return v
+}
+
+var evalDepth int
+
+// ExploreOverflow is set when an exploration ran into its step bound (the verdict of the caller is then
+// not a proof of unreachability; Finish reports it).
+var ExploreOverflow bool
+
 // assumeHook, when set (single-threaded use by ExploreX), supplies assumed constants for values.
 var assumeHook func(v ssa.Value) (*ssa.Const, bool)
 
 // EvalConst evaluates v to a constant under the state, if it can.
 func EvalConst(v ssa.Value, st PState) (*ssa.Const, bool) {
+	evalDepth++
+	defer func() { evalDepth-- }()
+	if evalDepth > 40 {
+		return nil, false // bindings that refer to each other (a cell holding a φ that loads the cell)
+	}
 	if assumeHook != nil {
 		if c, ok := assumeHook(v); ok {
+			return c, true
+		}
+	}
+	if _, isC := v.(*ssa.Const); !isC {
+		if c, ok := st[v].(*ssa.Const); ok {
 			return c, true
 		}
 	}
 	switch x := v.(type) {
 	case *ssa.Const:
 		return x, true
-	case *ssa.Phi, *ssa.Parameter:
-		if c, ok := st[v].(*ssa.Const); ok {
-			return c, true
+	case *ssa.Phi:
+		if b := Base(x, st); b != ssa.Value(x) {
+			return EvalConst(b, st)
 		}
+		return nil, false
+	case *ssa.Parameter:
 		return nil, false
 	case *ssa.Convert:
 		return EvalConst(x.X, st)
@@ -81,6 +138,20 @@ func EvalConst(v ssa.Value, st PState) (*ssa.Const, bool) {
 	case *ssa.BinOp:
 		a, ok1 := EvalConst(x.X, st)
 		b, ok2 := EvalConst(x.Y, st)
+		if x.Op == token.EQL || x.Op == token.NEQ {
+			// a value this path has seen tested against nil
+			var other ssa.Value
+			if ok2 && b.Value == nil && !ok1 {
+				other = x.X
+			} else if ok1 && a.Value == nil && !ok2 {
+				other = x.Y
+			}
+			if other != nil {
+				if _, nn := st[nonNil{Base(other, st)}]; nn {
+					return ssa.NewConst(constant.MakeBool(x.Op == token.NEQ), x.Type()), true
+				}
+			}
+		}
 		switch x.Op {
 		case token.EQL, token.NEQ, token.LSS, token.LEQ, token.GTR, token.GEQ:
 			if ok1 && ok2 {
@@ -140,8 +211,12 @@ func ExploreX(from *ssa.BasicBlock, after ssa.Instruction, init PState, nr NoRet
 		}
 		seen[k] = true
 		steps++
-		if steps > 20000 {
+		if steps > 200000 {
+			ExploreOverflow = true
 			return
+		}
+		if it.idx == 0 {
+			enterBlock(it.st, it.b)
 		}
 		stop := false
 		for i := it.idx; i < len(it.b.Instrs); i++ {
@@ -171,50 +246,11 @@ func ExploreX(from *ssa.BasicBlock, after ssa.Instruction, init PState, nr NoRet
 		if stop {
 			continue
 		}
-		succs := it.b.Succs
-		if ifi, ok := lastInstr(it.b).(*ssa.If); ok {
-			if c, ok := EvalConst(ifi.Cond, it.st); ok && c.Value != nil && c.Value.Kind() == constant.Bool {
-				if constant.BoolVal(c.Value) {
-					succs = succs[:1]
-				} else {
-					succs = succs[1:2]
-				}
+		for _, sc := range stepSuccs(it.b, it.st) {
+			if cutEdges != nil && cutEdges[Edge{it.b, sc.Idx}] {
+				continue
 			}
-		}
-		for _, s := range succs {
-			if cutEdges != nil {
-				isCut := false
-				for i, x := range it.b.Succs {
-					if x == s && cutEdges[Edge{it.b, i}] {
-						isCut = true
-					}
-				}
-				if isCut {
-					continue
-				}
-			}
-			// evaluate φ-nodes of s simultaneously for the edge it.b -> s
-			predIdx := -1
-			for i, p := range s.Preds {
-				if p == it.b {
-					predIdx = i
-				}
-			}
-			ns := it.st.clone()
-			for _, in := range s.Instrs {
-				ph, ok := in.(*ssa.Phi)
-				if !ok {
-					break
-				}
-				if predIdx >= 0 && predIdx < len(ph.Edges) {
-					if c, ok := EvalConst(ph.Edges[predIdx], it.st); ok {
-						ns[ph] = c
-					} else {
-						delete(ns, ph)
-					}
-				}
-			}
-			work = append(work, item{s, 0, ns})
+			work = append(work, item{sc.To, 0, sc.St})
 		}
 	}
 }
@@ -229,4 +265,134 @@ func Resolve(v ssa.Value, st PState) ssa.Value {
 		}
 	}
 	return v
+}
+
+// learn records what taking one side of a branch says about the values the condition tests: the condition
+// itself (so that the same flag tested again goes the same way) and nil-ness of the tested value.
+func learn(st PState, cond ssa.Value, taken bool, before PState) {
+	mk := func(b bool, t types.Type) *ssa.Const { return ssa.NewConst(constant.MakeBool(b), t) }
+	for i := 0; i < 4; i++ {
+		if u, ok := cond.(*ssa.UnOp); ok && u.Op == token.NOT {
+			cond, taken = u.X, !taken
+			continue
+		}
+		break
+	}
+	b := Base(cond, before)
+	if _, isC := b.(*ssa.Const); !isC {
+		st[b] = mk(taken, b.Type())
+	}
+	if bo, ok := b.(*ssa.BinOp); ok && (bo.Op == token.EQL || bo.Op == token.NEQ) {
+		var other ssa.Value
+		if IsNilConst(bo.Y) {
+			other = bo.X
+		} else if IsNilConst(bo.X) {
+			other = bo.Y
+		}
+		if other != nil {
+			ob := Base(other, before)
+			if _, isC := ob.(*ssa.Const); isC {
+				return
+			}
+			isNil := taken == (bo.Op == token.EQL)
+			if isNil {
+				st[ob] = ssa.NewConst(nil, ob.Type())
+			} else {
+				st[nonNil{ob}] = mk(true, types.Typ[types.Bool])
+			}
+		}
+	}
+}
+
+// enterBlock: values defined in this block are new on every entry; forget what an earlier pass through the
+// block learnt about them.
+func enterBlock(st PState, b *ssa.BasicBlock) {
+	for _, in := range b.Instrs {
+		if _, isPhi := in.(*ssa.Phi); isPhi {
+			continue
+		}
+		if v, ok := in.(ssa.Value); ok {
+			if _, isAl := v.(*ssa.Alloc); isAl {
+				continue
+			}
+			delete(st, v)
+			delete(st, nonNil{v})
+		}
+	}
+}
+
+// succState is one feasible way of leaving a block: the successor, its index in Succs, and the state there
+// (branch facts learnt, φ-nodes of the successor bound for this edge).
+type succState struct {
+	To  *ssa.BasicBlock
+	Idx int
+	St  PState
+}
+
+// stepSuccs lists the feasible successors of b under st.
+func stepSuccs(b *ssa.BasicBlock, st PState) []succState {
+	idxs := []int{}
+	for i := range b.Succs {
+		idxs = append(idxs, i)
+	}
+	var branchOn ssa.Value
+	if ifi, ok := lastInstr(b).(*ssa.If); ok && len(b.Succs) == 2 {
+		if c, ok := EvalConst(ifi.Cond, st); ok && c.Value != nil && c.Value.Kind() == constant.Bool {
+			if constant.BoolVal(c.Value) {
+				idxs = []int{0}
+			} else {
+				idxs = []int{1}
+			}
+		} else {
+			branchOn = ifi.Cond
+		}
+	}
+	var out []succState
+	for _, si := range idxs {
+		s := b.Succs[si]
+		predIdx := -1
+		for i, p := range s.Preds {
+			if p == b {
+				// a block may be the same predecessor twice (both arms of an If): the i-th occurrence
+				// belongs to the i-th successor slot that targets s
+				n := 0
+				for k := 0; k < si; k++ {
+					if b.Succs[k] == s {
+						n++
+					}
+				}
+				m := 0
+				for k := 0; k < i; k++ {
+					if s.Preds[k] == b {
+						m++
+					}
+				}
+				if m == n {
+					predIdx = i
+					break
+				}
+			}
+		}
+		ns := st.clone()
+		if branchOn != nil {
+			learn(ns, branchOn, si == 0, st)
+		}
+		for _, in := range s.Instrs {
+			ph, ok := in.(*ssa.Phi)
+			if !ok {
+				break
+			}
+			if predIdx >= 0 && predIdx < len(ph.Edges) {
+				if c, ok := EvalConst(ph.Edges[predIdx], st); ok {
+					ns[ph] = c
+				} else if bv := Base(ph.Edges[predIdx], st); bv != ssa.Value(ph) {
+					ns[ph] = bv
+				} else {
+					delete(ns, ph)
+				}
+			}
+		}
+		out = append(out, succState{s, si, ns})
+	}
+	return out
 }
